@@ -744,6 +744,19 @@ func checkC16(h *XHistory) {
 		if u.Spec.Kind != "udp" || h.XP.Net.UpDup > 0 || h.XP.Net.UpDrop > 0 || len(h.XP.Closes) > 0 {
 			continue
 		}
+		// whatever path it took: a returned message is an answer to this call
+		wrongIDs := false // a server that answers with other exchanges' ids is C05's subject
+		for _, t := range h.XP.Tokens {
+			for _, a := range t.Acts {
+				if a.Kind == "wrong_id" {
+					wrongIDs = true
+				}
+			}
+		}
+		if c.Msg != nil && c.HasMeta && c.Meta.Token != c.C.Token && !wrongIDs {
+			s.Fail("C16", "foreign-outcome", "call %d (token %s): the caller received the reply generated for token %s (serial %d, sent over %s)", c.C.Idx, c.C.Token, c.Meta.Token, c.Meta.Serial, protoOfSerial(u, c.Meta))
+			continue
+		}
 		var udpReplies, tcpQueries, tcpReplies []int
 		var udpTC bool
 		for i, r := range u.Replies {
